@@ -347,6 +347,9 @@ def match_known(known, preds, info):
     for k in known:
         if k.get("predicate") and not any(p[0] == k["predicate"] for p in preds):
             continue
+        # "predicates": every failing predicate of this behaviour (for the property) must be one of the listed ones
+        if k.get("predicates") and not all(p[0] in k["predicates"] for p in preds):
+            continue
         fn = getattr(patterns, k.get("pattern", ""), None) if patterns else None
         if k.get("pattern") and fn is None:
             continue
@@ -390,7 +393,7 @@ def report(prop, ev, results, prefixes):
         for d in (res.get("merged") or {}).get("drift", []):
             dk[d[1]] = dk.get(d[1], 0) + 1
     for k, n in sorted(dk.items()):
-        print("DRIFT property=%s %s at %d events  # implementation-level prediction differs, property predicates hold" % (prop, k, n))
+        print("DRIFT property=%s %s at %d events  # exit 0: not demanded by the property as read by this check (see DESIGN.md section 12)" % (prop, k, n))
     ev.violations = nviol
     ev.cov["known_findings"] = nknown
     return EXIT_VIOLATION if nviol else EXIT_OK
